@@ -1016,7 +1016,7 @@ fn main() {
         parse_case(&mut cx.rep, &scn);
         cx.run(&scn, &qs, &mut r);
     }
-    let n = args.budget(160, 2500);
+    let n = args.budget(110, 900);
     for _ in 0..n {
         let (scn, qs) = gen_scenario(&mut r, &mut cx.rep);
         cx.rep.bucket("scenario:random");
